@@ -215,7 +215,19 @@ func c15Run(op string, k int, mode string, in []byte) (res string, after []strin
 		return errRes(err), after, true, ncalls
 	case "reader/Parse":
 		fr := &faultyReaderAt{r: bytes.NewReader(in), k: k, armed: true, partial: mode == "partial" || mode == "partial-eof", eof: strings.HasSuffix(mode, "eof")}
-		_, err := authenticode.Parse(fr)
+		p, err := authenticode.Parse(fr)
+		if err == nil && k >= 0 && fr.n > k && fr.eof {
+			// the source ended early once and Parse went on: the image it holds must then be the
+			// whole one (the source delivers everything from now on), never a shorter or zero-filled one
+			clean, cerr := authenticode.Parse(bytes.NewReader(in))
+			if cerr != nil {
+				return "ok-wrong-value", nil, true, fr.n
+			}
+			if !bytes.Equal(p.Hash(crypto.SHA256), clean.Hash(crypto.SHA256)) || !bytes.Equal(p.Bytes(), clean.Bytes()) || p.VerifState() != clean.VerifState() {
+				return "ok-wrong-value", nil, true, fr.n
+			}
+			return "ok-right-value", nil, true, fr.n
+		}
 		return errRes(err), nil, true, fr.n
 	case "reader/Hash", "reader/Sign", "reader/Verify":
 		fr := &faultyReaderAt{r: bytes.NewReader(in), k: k, partial: mode == "partial" || mode == "partial-eof", eof: strings.HasSuffix(mode, "eof")}
@@ -342,11 +354,11 @@ func runC15(c *Ctx) {
 			}
 			if strings.HasPrefix(f.op, "reader/") {
 				modes = append(modes, "partial")
-				if f.op != "reader/Parse" {
-					// once an image is parsed its extent is known: a source that ends early has failed
-					// (for Parse itself the end of the source is what defines the image)
-					modes = append(modes, "eof", "partial-eof")
-				}
+				// once an image is parsed its extent is known: a source that ends early has failed.
+				// For Parse itself the end of the source is what defines the image: there a source that
+				// reports its end too early at one read may be an error, or Parse may read on and hold
+				// the whole image; what it may not do is succeed with a shorter or zero-filled one.
+				modes = append(modes, "eof", "partial-eof")
 			}
 
 			for k := 0; k < n; k++ {
@@ -362,6 +374,9 @@ func runC15(c *Ctx) {
 						continue // a failing open with ENOENT is "no such variable": an empty database by design
 					}
 					resOK := res != "err"
+					if f.op == "reader/Parse" && strings.HasSuffix(mode, "eof") {
+						resOK = res == "ok-wrong-value" || res == "ok"
+					}
 					if mode == "short-read" {
 						// a short read is legal: the operation may go on reading and succeed, but then with the right value
 						resOK = res == "ok-wrong-value"
